@@ -26,7 +26,7 @@ cd /verif
 git -C /repo apply $OUT/patch.diff || exit 2
 for p in "$@"; do
   echo "== check $p"
-  VERIF_NOMC=1 ./check $p --tier quick --seed ${SEED:-1} 2>&1 | grep -E "VIOLATION|KNOWN|^property|DRIFT|NO-VERDICT" | cut -c1-330 | head -6
+  VERIF_EVIDENCE_DIR=/tmp/seed-evidence VERIF_NOMC=1 ./check $p --tier quick --seed ${SEED:-1} 2>&1 | grep -E "VIOLATION|KNOWN|^property|DRIFT|NO-VERDICT" | cut -c1-330 | head -6
 done
 git -C /repo checkout -- .
 git -C /repo status --short | grep -v file-test
